@@ -193,6 +193,14 @@ def run_fragment(body: Sequence[ast.stmt], names: Dict[str, Any], attrs: Optiona
                 c = st.value
                 if isinstance(c, ast.Call) and isinstance(c.func, ast.Attribute) and c.func.attr in ("append", "extend", "insert", "pop", "reverse", "remove") and isinstance(c.func.value, ast.Name) and isinstance(env.get(c.func.value.id), list):
                     list_method(c)
+                elif isinstance(c, ast.Call) and isinstance(c.func, ast.Attribute) and c.func.attr == "index_fill_" and len(c.args) == 3 and isinstance(c.func.value, ast.Name) and isinstance(env.get(c.func.value.id), list):
+                    dim_, idx_, val_ = fold(c.args[0]), fold(c.args[1]), fold(c.args[2])
+                    cur_ = list(env[c.func.value.id])
+                    if dim_ != 0 or any(isinstance(t_, list) for t_ in cur_) or not isinstance(idx_, list):
+                        raise Unfoldable("index_fill_ beyond 1-D")
+                    for t_ in idx_:
+                        cur_[t_] = val_
+                    env[c.func.value.id] = cur_
                 elif isinstance(c, ast.Call) and isinstance(c.func, ast.Attribute) and c.func.attr in ("fill_", "copy_") and len(c.args) == 1 and isinstance(c.func.value, (ast.Attribute, ast.Name)):
                     # in-place overwrite of a scalar buffer / variable
                     from .astutil import attr_chain as _ch
@@ -238,8 +246,13 @@ def run_fragment(body: Sequence[ast.stmt], names: Dict[str, Any], attrs: Optiona
                     # the value is outside literal arithmetic: its names become unbound (a later use fails)
                     for t in st.targets:
                         for x in ast.walk(t):
-                            if isinstance(x, ast.Name):
+                            if isinstance(x, ast.Name) and isinstance(x.ctx, ast.Store):
                                 env.pop(x.id, None)
+                        base_ = t
+                        while isinstance(base_, (ast.Subscript, ast.Attribute)):
+                            base_ = base_.value
+                        if isinstance(base_, ast.Name) and base_ is not t:
+                            env.pop(base_.id, None)  # a container updated with an unknown value is unknown
                     continue
                 for t in st.targets:
                     bind(t, v)
